@@ -1856,14 +1856,24 @@ class Executor:
                     outs.append((s2, args))
                     continue
                 kw_nodes = [k for k in node.keywords]
-                if any(k.arg is None for k in kw_nodes):
-                    # **kwargs: only supported when opaque fallback is allowed
-                    raise Unsupported('**kwargs in call')
                 for s3, kwvals in self.ev_many([k.value for k in kw_nodes], s2):
                     if isinstance(kwvals, Raise):
                         outs.append((s3, kwvals))
                         continue
-                    kwargs = {k.arg: v for k, v in zip(kw_nodes, kwvals)}
+                    kwargs = {}
+                    for k, v in zip(kw_nodes, kwvals):
+                        if k.arg is not None:
+                            kwargs[k.arg] = v
+                            continue
+                        # f(**d): only for a dict built in this execution from literal string keys
+                        d = self.concrete_kind(s3, v, ('ref',))
+                        oid = z3.simplify(d.e) if d.kind == 'ref' else None
+                        keys = s3.ghost.get('c:dictkeys:%d' % oid.as_long()) if oid is not None and z3.is_int_value(oid) else None
+                        if keys is None:
+                            raise Unsupported('**kwargs in call (keys of the dict are not literal)')
+                        dvals = z3.Select(s3.get_arr('DV'), d.e)
+                        for key in keys:
+                            kwargs[key] = vany(z3.simplify(z3.Select(dvals, Val.str(z3.StringVal(key)))), maybe_none=True)
                     outs.extend(self.call(s3, fv, args, kwargs, node))
         return outs
 
